@@ -10,7 +10,8 @@ from contracts import codec_common as K
 from contracts import varint_common as V
 
 LEVEL = 'proof'
-TRUSTED = ['E-STRUCT', 'E-FLOAT', 'E-CODEC: str.encode/bytes.decode are inverse on encodable text', 'E-UUID', 'A-TYPES',
+TRUSTED = ['E-DATETIME: a datetime is an integer count of microseconds since 1970-01-01 UTC within years 1..9999; calendar.timegm(dt.utctimetuple()) is its floor seconds, dt.microsecond the remainder; timedelta(milliseconds=k) is exactly 1000k microseconds and datetime + timedelta adds or raises OverflowError (contracts/codec_common.py _stub_datetime; probed by the bounded timestamp stand-ins on the real library); date * 1e3 is real arithmetic (A-REAL)',
+           'E-STRUCT', 'E-FLOAT', 'E-CODEC: str.encode/bytes.decode are inverse on encodable text', 'E-UUID', 'A-TYPES',
            'bounded dimension: collection sizes <= 3, tuple/UDT arity <= 3, vector dimension <= 3 are unrolled, not proved by induction on the size',
            'SetType: decoded through the list adapter here; sorting/deduplication of sortedset is C33',
            'structural induction over the type tree is a meta-argument over the discharged constructor obligations'] + V.LEMMAS
@@ -21,6 +22,7 @@ for _c, _w, _s in K.FIXED_INTS:
 K.mk_boolean('C01')
 K.mk_simpledate('C01')
 K.mk_time('C01')
+K.mk_timestamp('C01')
 K.mk_float('C01', 'FloatType', 'f')
 K.mk_float('C01', 'DoubleType', 'd')
 K.mk_text('C01', 'UTF8Type', 'utf-8')
